@@ -4,6 +4,7 @@ import re
 from .. import thir, pathx, jobrules
 from ..facts import strip_generics
 from ..report import Skip
+from ..throttle import implies
 
 CFGP = r"^watchexec_cli::config::make_config::"
 
@@ -39,6 +40,50 @@ def seq(p):
         elif e[0] == "await":
             out.append("await")
     return out
+
+
+def job_retention(ctx, rule):
+    """the action worker forgets a job only when it is dead (shared with C04: one job, hence one process, per Id)"""
+    facts = ctx.facts
+    w = ctx.anchor_one(rule, "action worker coroutine",
+                       [c for c in facts.children(ctx.anchor_fn(rule, "watchexec::action::worker::worker")) if c.kind == "coroutine"])
+    root = thir.root(w)
+    removers = []
+    for cdef, n in thir.calls_in(root):
+        sname = strip_generics(cdef)
+        if "HashMap" in sname and sname.split("::")[-1] in ("remove", "remove_entry", "drain", "clear", "retain", "extract_if") and n["a"] and pathx.desc(n["a"][0]).lstrip("^") == "jobs":
+            removers.append((sname.split("::")[-1], n))
+    kinds = sorted(k for k, _ in removers)
+    ctx.require(kinds == ["drain", "remove"], rule, "removal-sites", "jobs leave the worker's map at two places: the gc loop (remove) and the graceful quit (drain)",
+                w.loc(w.line), detail=str(kinds), fail="the set of places where the action worker forgets jobs changed: %s" % kinds)
+    # the gc list is produced by a filter_map closure that yields the id exactly when the job is dead
+    sel = [c for c in facts.descendants(w) if c.kind == "closure" and any(t.callee.is_("Job::is_dead") for _, t in c.calls())]
+    cl = ctx.anchor_one(rule, "gc selection closure", sel)
+    bad = []
+    n_dead = 0
+    for q in pathx.Enum().paths(thir.root(cl)):
+        dead = None
+        for e in q.ev:
+            if e[0] == "branch":
+                if implies(e[1], e[2], "Job::is_dead(job)", True):
+                    dead = True
+                elif implies(e[1], e[2], "Job::is_dead(job)", False):
+                    dead = False
+        some = (q.val or "").startswith("Some")
+        if some and dead is not True:
+            bad.append("a job not known to be dead is selected: " + pathx.show_events(q.ev))
+        if some:
+            n_dead += 1
+    ctx.require(not bad and n_dead >= 1, rule, "gc-selects-dead-only", "the gc closure yields a job's id only under Job::is_dead(job)", cl.loc(cl.line),
+                detail="; ".join(bad)[:400], fail="the action worker garbage-collects jobs that are still alive: their handle is dropped after the action, which "
+                "ends the job task and kills the running command; the next change finds no job")
+    for k, n in removers:
+        if k == "remove":
+            # inside `for id in gc`
+            fl = [m for m in thir.find(root, "match") if m.get("src") == "ForLoopDesugar" and any(x is n for x in thir.walk(m))]
+            src = [pathx.desc(thir.peel(m["e"])["a"][0]) for m in fl if thir.peel(m["e"]).get("k") == "call" and thir.peel(m["e"]).get("a")]
+            ctx.require("gc" in src, rule, "remove-in-gc-loop", "jobs.remove(id) runs only over the ids selected by the gc closure", w.loc(n["l"]), detail=str(src))
+
 
 
 def run(ctx):
@@ -247,44 +292,7 @@ def run(ctx):
         pass
     # ---- R05.8 job retention in the action worker
     try:
-        w = ctx.anchor_one("R05.8", "action worker coroutine",
-                           [c for c in facts.children(ctx.anchor_fn("R05.8", "watchexec::action::worker::worker")) if c.kind == "coroutine"])
-        root = thir.root(w)
-        removers = []
-        for cdef, n in thir.calls_in(root):
-            sname = strip_generics(cdef)
-            if "HashMap" in sname and sname.split("::")[-1] in ("remove", "remove_entry", "drain", "clear", "retain", "extract_if") and n["a"] and pathx.desc(n["a"][0]).lstrip("^") == "jobs":
-                removers.append((sname.split("::")[-1], n))
-        kinds = sorted(k for k, _ in removers)
-        ctx.require(kinds == ["drain", "remove"], "R05.8", "removal-sites", "jobs leave the worker's map at two places: the gc loop (remove) and the graceful quit (drain)",
-                    w.loc(w.line), detail=str(kinds), fail="the set of places where the action worker forgets jobs changed: %s" % kinds)
-        # the gc list is produced by a filter_map closure that yields the id exactly when the job is dead
-        sel = [c for c in facts.descendants(w) if c.kind == "closure" and any(t.callee.is_("Job::is_dead") for _, t in c.calls())]
-        cl = ctx.anchor_one("R05.8", "gc selection closure", sel)
-        bad = []
-        n_dead = 0
-        for q in pathx.Enum().paths(thir.root(cl)):
-            dead = None
-            for e in q.ev:
-                if e[0] == "branch":
-                    if implies(e[1], e[2], "Job::is_dead(job)", True):
-                        dead = True
-                    elif implies(e[1], e[2], "Job::is_dead(job)", False):
-                        dead = False
-            some = (q.val or "").startswith("Some")
-            if some and dead is not True:
-                bad.append("a job not known to be dead is selected: " + pathx.show_events(q.ev))
-            if some:
-                n_dead += 1
-        ctx.require(not bad and n_dead >= 1, "R05.8", "gc-selects-dead-only", "the gc closure yields a job's id only under Job::is_dead(job)", cl.loc(cl.line),
-                    detail="; ".join(bad)[:400], fail="the action worker garbage-collects jobs that are still alive: their handle is dropped after the action, which "
-                    "ends the job task and kills the running command; the next change finds no job")
-        for k, n in removers:
-            if k == "remove":
-                # inside `for id in gc`
-                fl = [m for m in thir.find(root, "match") if m.get("src") == "ForLoopDesugar" and any(x is n for x in thir.walk(m))]
-                src = [pathx.desc(thir.peel(m["e"])["a"][0]) for m in fl if thir.peel(m["e"]).get("k") == "call" and thir.peel(m["e"]).get("a")]
-                ctx.require("gc" in src, "R05.8", "remove-in-gc-loop", "jobs.remove(id) runs only over the ids selected by the gc closure", w.loc(n["l"]), detail=str(src))
+        job_retention(ctx, "R05.8")
     except Skip:
         pass
     try:
